@@ -121,7 +121,10 @@ class BaseProp:
                     if d:
                         res["failing"].append((c, "release build differs from debug build: " + d, "counterexample"))
         if self.run_module:
-            n, diffs, errs = gv.correspond(self.run_module, cases, impl, wd, self.to_coq, shards=self.shards)
+            # cases flagged "nomodel" lie outside the model's input domain (e.g. non-integer weights):
+            # they are decided by the property oracle alone
+            mcases = [c for c in cases if not c.get("nomodel")]
+            n, diffs, errs = gv.correspond(self.run_module, mcases, impl, wd, self.to_coq, shards=self.shards)
             res["corr_errors"] += errs
             for c, d in diffs:
                 res["failing"].append((c, "implementation differs from the model: " + str(d),
